@@ -642,15 +642,9 @@ def marshal (S : Schema) (d : Nat) (tag : Nat) (v : Val) : Res Bytes := do
   let (items, _) ← encK S 100000 dy.kind tag v none
   pure (encList items)
 
-/-- slack of the decoder's fuel. Irreducible for the elaborator only (so that `simp` does not try to unfold
-    the fuel-recursive decoders three million times); the kernel and the compiler see the literal. -/
-@[irreducible] def decSlack : Nat := 3000000
-
-theorem decSlack_eq : decSlack = 3000000 := by unfold decSlack; rfl
-
 /-- fuel of the typed decoder on an input of `n` bytes. The Go decoder has no such bound; the constant
     covers every value the encoder (fuel 100000) can produce (`depth_bound` in Lemmas/PlanRoundtrip18). -/
-def decFuel (n : Nat) : Nat := n + decSlack
+def decFuel (n : Nat) : Nat := n + 3000000
 
 /-- `ttlv.UnmarshalTTLV(bs, ptr)` / `dec.TagAny(tag, ptr)` with `ptr` a fresh pointer to the dyn type `d`.
     A type id that denotes no type of the schema is an error (there is no such call in Go). -/
